@@ -19,11 +19,11 @@ PROPS = {
     "C07": dict(runs=[("term", 300, 20000), ("small", 300, 20000), ("dt", 150, 8000), ("cdt", 150, 8000), ("split", 80, 5000), ("refine", 60, 3000)], lean_module="Spade.Properties.C07"),
     "C08": dict(runs=[("pred", 20000, 1000000), ("invalid", 300, 20000)], lean_module="Spade.Properties.C08"),
     "C09": dict(runs=[("locate", 500, 40000), ("cdt", 150, 8000), ("dt", 300, 20000), ("small", 200, 15000)], lean_module="Spade.Properties.C09"),
-    "C10": dict(runs=[("bulk", 500, 40000)], lean_module="Spade.Properties.C10"),
+    "C10": dict(runs=[("bulk", 2000, 40000)], lean_module="Spade.Properties.C10"),
     "C11": dict(runs=[("dt", 400, 30000), ("cdt", 700, 30000), ("small", 300, 20000)], lean_module="Spade.Properties.C11"),
     "C12": dict(runs=[("cdt", 400, 30000), ("conq", 250, 15000)], lean_module="Spade.Properties.C12"),
     "C13": dict(runs=[("split", 500, 40000)], lean_module="Spade.Properties.C13"),
-    "C14": dict(runs=[("hull", 300, 20000), ("small", 400, 30000), ("dt", 200, 10000), ("bulk", 100, 6000)], lean_module="Spade.Properties.C14"),
+    "C14": dict(runs=[("hull", 300, 20000), ("small", 400, 30000), ("dt", 200, 10000), ("bulk", 4000, 20000)], lean_module="Spade.Properties.C14"),
     "C15": dict(runs=[("nn", 500, 40000)], lean_module="Spade.Properties.C15"),
     "C16": dict(runs=[("shape", 500, 40000), ("small", 200, 15000)], lean_module="Spade.Properties.C16"),
     "C17": dict(runs=[("line", 500, 40000), ("small", 200, 15000)], lean_module="Spade.Properties.C17"),
